@@ -1,3 +1,2 @@
-import AbacusVerif.Model.Common
--- stub: replaced when the C02 model exists
-def main : IO Unit := AbacusVerif.driverMain (fun _ => "bad-op")
+import AbacusVerif.Model.C02
+def main : IO Unit := AbacusVerif.driverMain AbacusVerif.Fields.handle
